@@ -21,10 +21,6 @@ def _filter_T(t, lab, keyname="key") -> bool:
 
 def check(ck: Checker) -> None:
     _lints(ck, "C17.aliasing", "index.index", "index.view", "fs")
-    from . import round4 as _r4
-
-    _r4.load_fallback_broad(ck, "C17.loadonce")
-    _r4.storage_prefix_default(ck, "C17.fs")
     ck.decided = [
         "C17.viewguard: every DataIndexView method that takes a key reaches the wrapped index only across filter_fn(key) (root key exempt in __getitem__); every key a view generator yields has passed filter_fn",
         "C17.loadonce: DataIndex._load skips loaded entries, marks an entry loaded only after the storage load returned normally, and re-stores the marked entry",
@@ -39,6 +35,11 @@ def check(ck: Checker) -> None:
     _accessors(ck)
     _children(ck)
     _fs(ck)
+    from . import round4 as _r4
+
+    _r4.load_fallback_broad(ck, "C17.loadonce")
+    _r4.storage_prefix_default(ck, "C17.fs")
+
 
 
 def _viewguard(ck: Checker) -> None:
